@@ -62,7 +62,7 @@ def make(spec):
     req, adr, we, sel, data = Signal(2), Signal(max=max(2, words)), Signal(), Signal(L), Signal(L)
     cti, bte = Signal(3), Signal(2)
     top.comb += [
-        master.cyc.eq(req != 0), master.stb.eq(req == 1), master.we.eq(we), master.adr.eq(adr), master.sel.eq(sel),
+        master.cyc.eq((req == 1) | (req == 2)), master.stb.eq((req == 1) | (req == 3)), master.we.eq(we), master.adr.eq(adr), master.sel.eq(sel),
         master.cti.eq(cti), master.bte.eq(bte),
         master.dat_w.eq(Cat(*[Cat(data[l], Constant(0, 7)) for l in range(L)])),
     ]
@@ -83,7 +83,7 @@ def tla_cfg(spec, wi):
             "btes": spec.get("btes", [0]), "maxlen": spec["maxlen"],
             "sside": int(bool(spec.get("sside"))), "swords": spec["words"] * spec.get("ratio", 1) if spec["kind"] != "bup"
             else max(1, spec["words"] // spec["ratio"]),
-            "mwait": int(spec.get("mwait", 0)), "wi": wi}
+            "mwait": int(spec.get("mwait", 0)), "junk": int(spec.get("junk", 0)), "wi": wi}
 
 
 WRAPLEN = {0: 1, 1: 4, 2: 8, 3: 16}
@@ -128,6 +128,10 @@ def required_witnesses(spec):
     if spec.get("mwait") and ml >= 2 and btes:
         w.append("beat of an incrementing burst after a master wait state")
         w.append("cyc ahead of the first stb")
+    if spec.get("junk") and btes:
+        w.append("burst beat of another slave on the bus (stb without cyc)")
+        if spec.get("mwait") and ml >= 2:
+            w.append("wait state with write-shaped lines")
     return w
 
 
@@ -147,6 +151,8 @@ class Hint:
     def inputs(self, cfg, ctx):
         st, a0, k, kind, bte, we, held, wt = ctx
         mw = cfg.get("mwait", 0)
+        junk = cfg.get("junk", 0)
+        allsel = (1 << cfg["lanes"]) - 1
         if st == 1:
             return [held]
         out = []
@@ -159,10 +165,16 @@ class Hint:
                         out.append((1, a, we, sel, x, t, bte))
             if wt < mw:
                 out += [(2, a, we, 0, 0, kind, bte), (2, 0, 0, 0, 0, 0, 0)]
+                if junk:
+                    out += [(2, x, 1, allsel, allsel, 0, 0) for x in range(cfg["words"])]
             return out
         out.append((0, 0, 0, 0, 0, 0, 0))
         if mw:
             out += [(2, 0, 0, 0, 0, 2, b) for b in cfg["btes"]]
+        if junk:
+            for q in ((2, 3) if mw else (3,)):
+                for x in range(cfg["words"]):
+                    out += [(q, x, 1, allsel, allsel, t[0], t[1]) for t in [(0, 0)] + [(2, b) for b in cfg["btes"]]]
         tags = []
         if cfg["classic"]:
             tags.append((0, 0))
@@ -188,7 +200,7 @@ class Hint:
         iv = tuple(iv)
         if iv[0] == 2:
             return (2, a0, k, kind, bte, we, None, wt + 1) if st == 2 else self.IDLE
-        if iv[0] == 0:
+        if iv[0] in (0, 3):
             return self.IDLE
         if st == 0:
             a0, k, kind, bte, we = iv[1], 0, iv[5], iv[6], iv[2]
@@ -213,7 +225,10 @@ def configs(tier):
     # longer than the wrap size, linear bursts across the top of the address space, writes ignored
     add(kind="bsram_ro", lanes=1, words=16, init="idx", btes=[0, 1, 2, 3] if th else [0, 1, 2], maxlen=16 if th else 6)
     # master wait states inside bursts (cyc high, stb low) and cyc ahead of the first stb, reads and writes
-    add(kind="bsram", lanes=1, words=4, init="idx", btes=[0, 1], maxlen=4, mwait=2 if th else 1, const=0, end1=0, classic=0)
+    # ... and lines that are not quiet without a request (junk: write-shaped lines in wait states, cyc ahead of stb with
+    # write lines, beats of another slave's burst with stb but without cyc)
+    add(kind="bsram", lanes=1, words=4, init="idx", btes=[0, 1], maxlen=4, mwait=2 if th else 1, const=0, end1=0, classic=0,
+        junk=1)
     # byte lanes of a 16-bit memory in write bursts
     add(kind="bsram", lanes=2, words=2, init="alt", btes=[0], maxlen=3, sels=[1, 2, 3])
     # cti translation of the down-converter (16 -> 8 bit), slave side observed
